@@ -1,6 +1,7 @@
 """C12 — per-path (amend) ignores cover exactly the files under that path."""
 from __future__ import annotations
 
+import json
 import os
 import tempfile
 from pathlib import Path
@@ -91,7 +92,14 @@ def run(ctx: Ctx) -> None:
                 else:
                     config_file = os.path.relpath(cfg_abs, cwd)
                 cfg_base = Path(cfg_abs).parent if config_file is not None else cwd
-                target = rng.choice(DIRS + [f for f in files] + ["", "."])
+                frel = rng.choice(files)
+                if rng.random() < 0.5:
+                    parts = frel.split("/")                       # an ancestor of the file (or the file itself): the covered half of the space
+                    target = "/".join(parts[: rng.randrange(1, len(parts) + 1)])
+                    if rng.random() < 0.25:
+                        target = os.path.dirname(target) + ("/" if os.path.dirname(target) else "") + os.path.basename(target)[:-1]   # a sibling that shares a prefix
+                else:
+                    target = rng.choice(DIRS + [f for f in files] + ["", "."])
                 entry_abs = os.path.normpath(root / target)
                 r = rng.random()
                 if r < 0.15:
@@ -109,12 +117,22 @@ def run(ctx: Ctx) -> None:
                     ign = ErrorCode(rng.choice([100, 124]), "FURB", Path(entry))
                 else:
                     ign = ErrorCategory("pathlib", Path(entry))
-                frel = rng.choice(files)
                 fabs = str(root / frel)
                 fname = fabs if rng.random() < 0.3 else os.path.relpath(fabs, cwd)
                 if rng.random() < 0.3:
                     fname = decorate(rng, fname) if not fname.startswith("/") else fname
                 st = Settings(config_file=config_file, ignore={ign, ErrorCode(999, "FURB", None)})
+                if config_file is not None and rng.random() < 0.5:
+                    # the same entry as the user would write it, through the real config parser (what it stores is part of the contract)
+                    from refurb.settings import load_settings
+                    spell = f"FURB{ign.id}" if isinstance(ign, ErrorCode) else f"#{ign.value}"
+                    Path(cfg_abs).write_text(f'[tool.refurb]\nignore = ["FURB999"]\n[[tool.refurb.amend]]\npath = {json.dumps(entry)}\nignore = ["{spell}"]\n')
+                    try:
+                        st = load_settings(["x.py", "--config-file", config_file])
+                        ctx.count("entry-through-config-parser")
+                    except ValueError as ex:
+                        ctx.report("amend:config-rejected", f"a well-formed amend entry {entry!r} is rejected: {ex}", {"entry": entry, "config": Path(cfg_abs).read_text()})
+                        continue
                 err = K(line=1, column=0, msg="m", filename=fname)
                 real = bool(rmain.is_ignored_via_amend(err, st))
                 # oracle: at or below, by real path, and the classifier names this error
@@ -134,9 +152,14 @@ def run(ctx: Ctx) -> None:
                                {"cwd": str(cwd), "config_file": config_file, "entry": entry, "file": fname, "real": real, "expected": want})
             # symlinks: execution only
             os.chdir(root)
+            os.symlink(root / "src" / "util", root / "link_to_util")          # link_to_util/.. is src, not the root
+            from refurb.settings import load_settings
             for entry, fname, want in (("link_to_src", "src/a.py", True), ("src", "link_to_src/a.py", True), ("src", "pkg/linked_a.py", True),
-                                       ("pkg", "pkg/linked_a.py", False), ("link_to_src", "src2/a.py", False)):
-                st = Settings(ignore={ErrorCode(123, "FURB", Path(entry))})
+                                       ("pkg", "pkg/linked_a.py", False), ("link_to_src", "src2/a.py", False),
+                                       ("link_to_util/../a.py", "src/a.py", True), ("link_to_util/../a.py", "a.py", False), ("link_to_util/..", "src/a.py", True),
+                                       ("link_to_util/..", "pkg/a.py", False), ("./link_to_src/util/..", "src/a.py", True)):
+                (root / "pyproject.toml").write_text(f'[tool.refurb]\n[[tool.refurb.amend]]\npath = {json.dumps(entry)}\nignore = ["FURB123"]\n')
+                st = load_settings(["x.py"])                                  # through the real parser, cwd = root
                 real = bool(rmain.is_ignored_via_amend(K(line=1, column=0, msg="m", filename=fname), st))
                 ctx.case(("symlink", entry, fname), nontrivial=True, sample={"symlink-entry": entry, "file": fname, "ignored": real})
                 ctx.count("symlink")
